@@ -1,11 +1,11 @@
 package main
 
 import (
-	"time"
 	"fmt"
 	"go/token"
 	"go/types"
 	"strings"
+	"time"
 
 	"golang.org/x/tools/go/ssa"
 )
